@@ -1531,6 +1531,10 @@ class Kernel:
             self.skipped.append("slice: top-level statements %d..%d of %d (first: `%s`; first excluded: `%s`)" % (
                 i0 + 1, i1, len(stmts), texts[i0][:60], texts[i1][:60] if i1 < len(stmts) else "end of function"))
             stmts = stmts[i0:i1]
+        # locals declared INSIDE the slice are ordinary locals of the kernel, not inputs
+        for st_ in stmts:
+            for dcl in all_decls(st_):
+                self.pre_locals.discard(("v", dcl["id"]))
         self.slice_text = "\n".join(self.text_of(s) for s in stmts)
 
         def k_end(env2):
